@@ -34,7 +34,7 @@ func genServe(r *vh.Rand, w *vh.LineWriter, next int, tier string) int {
 	g := pgen{r}
 	nseq := 160
 	if tier == "thorough" {
-		nseq = 6000
+		nseq = 3000
 	}
 	goodFrame := func(enc bool, refuse bool) (string, []byte) {
 		for try := 0; try < 20; try++ {
@@ -94,7 +94,10 @@ func genServe(r *vh.Rand, w *vh.LineWriter, next int, tier string) int {
 				m[bit/8] ^= 1 << uint(bit%8)
 				add("flipH", m)
 			case kind == 2:
-				add("trunc", f[:r.Intn(len(f))])
+				// the connection ends inside this frame: nothing can follow a
+				// truncation (bytes sent later would just be the rest of the frame)
+				add("trunc", f[:1+r.Intn(len(f)-1)])
+				k = n
 			case kind == 3:
 				m[r.Intn(2)] ^= 0x10
 				add("badmagic", m)
@@ -192,6 +195,9 @@ func runServe(id string, f []string, line string, obs *vh.LineWriter, st *vh.Sta
 	var want [][]byte
 	firstBad := ""
 	for _, o := range ops {
+		if len(o.b) == 0 {
+			continue // an op that put no bytes on the connection (e.g. a truncation to nothing)
+		}
 		if o.tag == "good" || o.tag == "refuse" {
 			want = append(want, o.b[20:])
 			if o.tag == "refuse" {
